@@ -29,6 +29,7 @@ def run(ctx):
                 "distinct = (program,target) pairs that produced native code." % levels,
         "samples": res.samples or [{"note": "none"}],
         "programs": int(st.get("programs", 0)),
+        "memory_checks": int(st.get("memory_checks", 0)),
         "checked": ["rbx rbp r12-r15 preserved", "rsp restored", "8 canary words above the return address intact", "MXCSR control bits "
                     "(rounding, FTZ, DAZ, masks) equal to the seed", "DF clear", "x87/MMX tag word empty", "no fault outside executor/arrays", "every byte of the array mappings outside elements 0..n-1 of the destination rows as filled (sources, leading/trailing bytes, row gaps), with the executor's scratch counters holding stale values on entry"],
         "exhaustive": not res.incomplete,
